@@ -10,6 +10,36 @@ from .sysrules import SysHooks, registry_of, is_name, MUTATORS
 GRAPH_CALLS = {"add_node", "add_child", "add_edge", "remove_node", "remove_edge", "add_parent", "remove_node_retain_edges"}
 
 
+def quantifier_value(sm, node, fname, st):
+    """any(C(x) for x in X) / all(..): the condition on one symbolic element of X, as the loop form is read"""
+    # any(C(x) for x in X) / all(..): the condition on one symbolic element of X, as the loop form is read
+    if fname in ("any", "all") and len(node.args) == 1 and isinstance(node.args[0], (ast.GeneratorExp, ast.ListComp)) and len(node.args[0].generators) == 1 \
+            and not isinstance(node.args[0].generators[0].iter, (ast.Tuple, ast.List)):
+        g = node.args[0].generators[0]
+        X = g.iter
+        vals = isinstance(X, ast.Call) and isinstance(X.func, ast.Attribute) and X.func.attr in ("values", "keys", "items") and not X.args
+        d = sm.expr(X.func.value, st) if vals else sm.expr(X, st)
+        el = Sym(("elem", vkey(d)))
+        s2 = st.fork()
+        ok = True
+        if vals and X.func.attr == "values" and isinstance(g.target, ast.Name):
+            s2.env[g.target.id] = Sym(("sub", d, el))
+        elif vals and X.func.attr == "items" and isinstance(g.target, ast.Tuple) and len(g.target.elts) == 2 and all(isinstance(e, ast.Name) for e in g.target.elts):
+            s2.env[g.target.elts[0].id] = el
+            s2.env[g.target.elts[1].id] = Sym(("sub", d, el))
+        elif isinstance(g.target, ast.Name):
+            s2.env[g.target.id] = el
+        else:
+            ok = False
+        if ok:
+            c = sm.cond(node.args[0].elt, s2)
+            flt = [sm.cond(x, s2) for x in g.ifs]
+            if fname == "any":
+                return BoolV(And(*(flt + [c])))
+            return BoolV(Or(*([Not(x) for x in flt] + [c])))
+    return None
+
+
 class EditHooks(SysHooks):
     """SysHooks + inlining of the private helpers + loop abstraction + effect events"""
 
@@ -109,30 +139,9 @@ class EditHooks(SysHooks):
         if isinstance(f, ast.Attribute) and isinstance(f.value, ast.Attribute) and f.value.attr == "_g" and is_name(f.value.value, "self") and f.attr in GRAPH_CALLS:
             st.events.append(("effect", "GRAPH", f.attr, tuple(vkey(a) for a in args), node.lineno))
             return Sym(("graph", f.attr, tuple(vkey(a) for a in args), node.lineno))
-        # any(C(x) for x in X) / all(..): the condition on one symbolic element of X, as the loop form is read
-        if fname in ("any", "all") and len(node.args) == 1 and isinstance(node.args[0], (ast.GeneratorExp, ast.ListComp)) and len(node.args[0].generators) == 1:
-            g = node.args[0].generators[0]
-            X = g.iter
-            vals = isinstance(X, ast.Call) and isinstance(X.func, ast.Attribute) and X.func.attr in ("values", "keys", "items") and not X.args
-            d = sm.expr(X.func.value, st) if vals else sm.expr(X, st)
-            el = Sym(("elem", vkey(d)))
-            s2 = st.fork()
-            ok = True
-            if vals and X.func.attr == "values" and isinstance(g.target, ast.Name):
-                s2.env[g.target.id] = Sym(("sub", d, el))
-            elif vals and X.func.attr == "items" and isinstance(g.target, ast.Tuple) and len(g.target.elts) == 2 and all(isinstance(e, ast.Name) for e in g.target.elts):
-                s2.env[g.target.elts[0].id] = el
-                s2.env[g.target.elts[1].id] = Sym(("sub", d, el))
-            elif isinstance(g.target, ast.Name):
-                s2.env[g.target.id] = el
-            else:
-                ok = False
-            if ok:
-                c = sm.cond(node.args[0].elt, s2)
-                flt = [sm.cond(x, s2) for x in g.ifs]
-                if fname == "any":
-                    return BoolV(And(*(flt + [c])))
-                return BoolV(Or(*([Not(x) for x in flt] + [c])))
+        q = quantifier_value(sm, node, fname, st)
+        if q is not None:
+            return q
         if fname in ("warn", "warnings.warn"):
             st.events.append(("warn", node.lineno))
             return None if False else Sym(("warn",))
@@ -149,6 +158,25 @@ class EditHooks(SysHooks):
         return super().call(sm, node, fname, args, kwargs, st)
 
     def loop(self, sm, node, st):
+        # for x in (A if c else B): the two cases are separate paths
+        if isinstance(node, ast.For) and isinstance(node.iter, ast.IfExp):
+            outs = []
+            f = sm.cond(node.iter.test, st)
+            for pick, val in ((f, node.iter.body), (Not(f), node.iter.orelse)):
+                if pick is False:
+                    continue
+                s_b = st.fork()
+                if pick is not True:
+                    s_b.guards = list(s_b.guards) + [pick]
+                    s_b.events.append(("guard", pick, node.lineno))
+                tmp = "__it%d" % node.lineno
+                s_b.env[tmp] = sm.expr(val, s_b)
+                syn = ast.copy_location(ast.For(target=node.target, iter=ast.copy_location(ast.Name(id=tmp, ctx=ast.Load()), node.iter), body=node.body, orelse=[]), node)
+                r = self.loop(sm, syn, s_b)
+                if r is None:
+                    return None
+                outs += r
+            return outs
         # an index scan `r = d; for i in range(len(X)): if C(i): r = i; break` (and its equivalent spellings) leaves
         # r = FIRST(i in X with C(i), else d); the mirror forms leave LAST(..)
         if isinstance(node, ast.For):
